@@ -582,7 +582,9 @@ impl World {
                     wrote = true;
                 }
                 if *call == Call::Commit && *ok && wrote {
-                    out.violations.push(viol(&["C18"], "nonmut.committed_write", format!("{} -> {} committed a write (storage calls: {:?})", req.short(), resp.short(), log)));
+                    // not a violation by itself (a write that changes nothing protocol-visible is
+                    // allowed); the before/after projection above is the oracle
+                    out.bump("probe.nonmutating_outcome_committed_a_write");
                     break;
                 }
             }
